@@ -248,6 +248,39 @@ func judge(rec *fw.Rec, cd *caseDesc, spec *core.Spec, deadline bool) bool {
 	return true
 }
 
+// mutatorJS changes every value reachable from _.bindings in place (array
+// elements, array order and length, object members) and returns fresh bindings.
+const mutatorJS = `function mut(x) { if (Array.isArray(x)) { for (var i = 0; i < x.length; i++) { if (x[i] !== null && typeof x[i] === 'object') { mut(x[i]); } else { x[i] = 'mutated'; } } x.reverse(); if (x.length > 0) { x.shift(); } x.push('pushed'); } else if (x !== null && typeof x === 'object') { for (var k in x) { if (x[k] !== null && typeof x[k] === 'object') { mut(x[k]); } else { x[k] = 'mutated'; } } x.added = 'mutated'; } } mut(_.bindings); mut(_.props); return {done: true};`
+
+// mutatorStates: bindings of varied shapes (flat with arrays only, arrays of
+// arrays, arrays of objects, nested objects, Go-typed numbers).
+var mutatorStates = []map[string]interface{}{
+	{"queue": []interface{}{"a", "b", "c"}, "owner": "alice"},
+	{"q": []interface{}{1.0, 2.0, 3.0}, "n": 1.0, "s": "x"},
+	{"grid": []interface{}{[]interface{}{1.0, 2.0}, []interface{}{3.0}}, "flag": true},
+	{"items": []interface{}{map[string]interface{}{"id": 1.0}, map[string]interface{}{"id": 2.0}}},
+	{"cfg": map[string]interface{}{"deep": map[string]interface{}{"list": []interface{}{"x", "y"}}}, "queue": []interface{}{"a"}},
+	{"ints": []interface{}{int64(1), int64(2)}, "i": int64(7)},
+	{"only": "scalars", "k": 2.0, "z": nil},
+}
+
+func mutatorSpec(position string, settings int) *ref.ASpec {
+	mut := &ref.Prog{Ops: []ref.Op{{Op: "raw", V: mutatorJS, K: "", K2: "weak"}}, Ret: "same"}
+	a := &ref.ASpec{Name: "mutator", Nodes: map[string]*ref.ANode{"n2": {}, "aerr": {}}}
+	switch settings {
+	case 1:
+		a.ActionErrorBranches = true
+	case 2:
+		a.ActionErrorNode = "aerr"
+	}
+	if position == "action" {
+		a.Nodes["start"] = &ref.ANode{Action: mut, Branching: &ref.ABranching{Type: "bindings", Branches: []*ref.ABranch{{Target: "n2"}}}}
+	} else {
+		a.Nodes["start"] = &ref.ANode{Branching: &ref.ABranching{Type: "bindings", Branches: []*ref.ABranch{{Guard: mut, Target: "n2"}, {Target: "n2"}}}}
+	}
+	return a
+}
+
 func renderSpec(a *ref.ASpec, render string) (*core.Spec, error) {
 	switch render {
 	case "native-nilerr":
@@ -272,7 +305,7 @@ func renderSpec(a *ref.ASpec, render string) (*core.Spec, error) {
 
 func Run(cfg fw.Config, rec *fw.Rec) {
 	rec.Rule = "(a) every enumerated single-node configuration of C04's full vocabulary (failing / null-returning actions, rejecting / failing guards, invalid patterns, missing and @var targets, 4 error settings) x 5 states x 5 pendings, Step and Walk (limits 0,1,100), rendered with native actions (nil,err), native (partial,err), native identity action, and ECMAScript (sampled); (b) random multi-node specs with message sequences; deep snapshots of state, messages, control, props and spec are compared before/after, result maps are checked for identity with input maps, and the call is repeated; non-trivial = case whose result has a next state, an error, or emissions; distinct by canonical case"
-	rec.Required = []string{"op_step", "op_walk", "render_native-nilerr", "render_native-partial", "render_native-identity", "render_ecma", "path_action_failed", "path_error_node", "path_limit", "random_walks"}
+	rec.Required = []string{"op_step", "op_walk", "render_native-nilerr", "render_native-partial", "render_native-identity", "render_ecma", "path_action_failed", "path_error_node", "path_limit", "random_walks", "inplace_mutator_scripts"}
 	rec.Assume = []string{"native actions copy their input before modifying it (except the identity action, which returns it untouched), so a write into caller-owned data is the engine's", "equality of repeated results is claimed for guarded branches with at most one candidate"}
 	cs := c04.Configs(true)
 	states := c04.States()
@@ -329,6 +362,26 @@ func Run(cfg fw.Config, rec *fw.Rec) {
 			}
 		}
 	})
+	// scripts that mutate their bindings (and props) in place, on bindings of varied shapes
+	for _, position := range []string{"action", "guard"} {
+		for settings := 0; settings < 3; settings++ {
+			a := mutatorSpec(position, settings)
+			spec, err := a.Compiled(false, ref.NativeNilErr)
+			if err != nil {
+				rec.Inconclusive("mutator spec: " + err.Error())
+				continue
+			}
+			for si, bs := range mutatorStates {
+				for _, op := range []string{"step", "walk"} {
+					cd := &caseDesc{Spec: a, Render: "ecma-inplace-mutator", State: ref.AState{Node: "start", Bs: bs}, Limit: 5, Op: op}
+					if judge(rec, cd, spec, false) {
+						rec.Bucket("inplace_mutator_scripts")
+						rec.Nontrivial(fmt.Sprintf("mutator-%s-%d-%d-%s", position, settings, si, op))
+					}
+				}
+			}
+		}
+	}
 	// random multi-node specs
 	n := cfg.Pick(15000, 200000)
 	fw.Parallel(cfg.Workers, n, func(w, i int) {
